@@ -135,6 +135,20 @@ def check_program(p):
                     dead_by_constant[0] += 1
                 else:
                     out.append(('edge-never-read', sorted(reads), sorted(got), 'a term with an edge into %s is read on no branch outcome' % y))
+    # the graph does not depend on how the script is spaced: no blanks round the assignment sign, none round operators
+    if not out and '`' not in script:
+        for tag, respelled in (('tight-assignment', '\n'.join(line.replace(' = ', '=', 1) for line in script.split('\n'))),
+                               ('wide-assignment', '\n'.join(line.replace(' = ', '   =   ', 1) for line in script.split('\n')))):
+            try:
+                G2 = tools.symbols_to_graph(fsic.parse_model(respelled))
+            except (ParserError, SymbolError, IndentationError):
+                continue
+            except Exception as e:
+                out.append(('respelled:%s:%s' % (tag, type(e).__name__), 'a graph', repr(e)[:160], 'symbols_to_graph raised for %r' % respelled))
+                break
+            if sorted(G2.nodes) != sorted(G.nodes) or sorted(G2.edges) != sorted(G.edges):
+                out.append(('respelled:%s' % tag, sorted(G.edges)[:6], sorted(G2.edges)[:6], 'the same equations spelled %r give another graph' % respelled))
+                break
     # no edge may point into a node that is not a left-hand side
     lhs_nodes = {node_text(e.lhs.name, e.lhs.off) for e in p.eqs}
     stray = [(u, v) for u, v in G.edges if v not in lhs_nodes]
